@@ -441,6 +441,11 @@ def cases(tier, seed):
     for i in range(n_conc):
         yield dict(role='acceptor' if i % 2 else 'requestor', walk=10, mode='concurrent',
                    seed=seed * 1000003 + i)
+    # several PDUs in one segment with the peer's close right behind them: everything that
+    # arrived before the close must still be processed, in order
+    for i in range(400 if tier == 'quick' else 20000):
+        yield dict(role='acceptor' if i % 2 else 'requestor', walk=10, mode='concurrent',
+                   finburst=True, seed=seed * 1000033 + i)
 
 
 def _terminal(role, h):
@@ -575,6 +580,23 @@ def run_concurrent(case):
                 viol.extend(_viol(b, role, drv, case) for b in bad)
                 return _fin(res, drv, case, viol)
         burst = case.get('burst')
+        if burst is None and case.get('finburst'):
+            m = drv.model.clone()
+            burst = []
+            part_open = m.partial
+            for _ in range(rnd.randint(2, 4)):
+                en = [e for e in m.enabled() if e.startswith('p:') and e != 'p:fin']
+                if part_open:
+                    en = [e for e in en if e not in ('p:data', 'p:data2', 'p:part')]
+                if not en:
+                    break
+                ev = rnd.choice(en)
+                part_open = (ev == 'p:part') or (part_open and ev != 'p:rest')
+                burst.append(ev)
+                m.apply(ev, 0.0)
+            if 'p:fin' in m.enabled() or not m.sock_open:
+                burst.append('p:fin')
+            case = dict(case, gaps=[0.0] * len(burst))
         if burst is None:
             # draw a peer sequence and a user sequence, each legal along SOME path; we draw them
             # from a model walk so that at least one serialisation is sensible
